@@ -531,6 +531,10 @@ recorded:
 		"res": map[string]interface{}{"c": res.C, "id": res.Id, "val": t.Encode(res.Val),
 			"found": found, "ids": ids, "n": res.N, "tree": nonNilMaps(res.Tree), "vals": nonNil(res.Vals)},
 		"msg": res.Msg, "enc": res.Enc, "crashes": images, "fault": fired,
+		"fault_kind": "", "fault_loc": "", "fault_key": "",
+	}
+	if fired && w.FS != nil && !op.Refused {
+		ev["fault_kind"], ev["fault_loc"], ev["fault_key"] = w.FS.FiredKind, w.FS.FiredLoc, w.FS.FiredKey
 	}
 	if sequential {
 		ev["disk"] = w.diskIds()
